@@ -39,6 +39,11 @@ func zzName() string {
 // the entry points from their own parameters).
 var zzT, zzOps = 9, oNOps
 
+// zzOpBase: first operation kind in use; zzStepCfg (if set) reconfigures
+// templates and kinds before step i.
+var zzOpBase = 0
+var zzStepCfg func(i int)
+
 func zzPath(label string) string {
 	switch nd.Choose(label, zzT) {
 	case 0:
@@ -75,7 +80,7 @@ func zzInitial() *reftree.Node {
 // the same operation on the twin B. It returns the operation name and whether
 // the step is inside the statement (both sides accept it).
 func zzApply(c filesystem.Filespace, b *reftree.Node) (string, bool) {
-	op := nd.Choose("op", zzOps)
+	op := zzOpBase + nd.Choose("op", zzOps)
 	p := zzPath("path")
 	segs, climbs := reftree.Norm(p)
 	if climbs || len(segs) == 0 {
@@ -155,6 +160,32 @@ func ZZVerifC06Pairs() {
 	zzCommit(nd.Param("PK", 2), nd.Param("PF", 1))
 }
 
+// zzThenCopyCfg: step 0 is one of the five non-copy operations over the six
+// templates a, a/x, g, <fresh>, a/<fresh>, a/d; step 1 is one of the three
+// copy operations whose source and destination range over a, a/x, g and a
+// fresh name - so that a directory which lives partly in the buffer and
+// partly on the remote (or lost a child in the cache) is copied.
+func zzThenCopyCfg(i int) {
+	if i == 0 {
+		zzOpBase, zzOps, zzT = 0, 5, 6
+	} else {
+		zzOpBase, zzOps, zzT = oCopyFile, 3, 4
+	}
+}
+
+// ZZVerifC06ThenCopy: a non-copy operation followed by a copy, then Commit.
+func ZZVerifC06ThenCopy() {
+	zzStepCfg = zzThenCopyCfg
+	zzCommit(2, nd.Param("CF", 0))
+}
+
+// ZZVerifC07ThenCopy: a non-copy operation followed by a copy; the view is
+// compared after each.
+func ZZVerifC07ThenCopy() {
+	zzStepCfg = zzThenCopyCfg
+	zzRYW(2)
+}
+
 func zzCommit(k, f int) {
 	r0 := zzInitial()
 	remote := reftree.NewFS(zzInitial())
@@ -163,6 +194,9 @@ func zzCommit(k, f int) {
 	nd.Assume(err == nil)
 	hist := ""
 	for i := 0; i < k; i++ {
+		if zzStepCfg != nil {
+			zzStepCfg(i)
+		}
 		name, inside := zzApply(c, b)
 		nd.Assume(inside)
 		if i > 0 {
@@ -220,6 +254,9 @@ func zzRYW(k int) {
 	nd.Assert(reftree.Same(c, b, nil), "C07/initial-view")
 	hist := ""
 	for i := 0; i < k; i++ {
+		if zzStepCfg != nil {
+			zzStepCfg(i)
+		}
 		name, inside := zzApply(c, b)
 		nd.Assume(inside)
 		if i > 0 {
